@@ -202,7 +202,7 @@ class Out:
         if CTX.mode == 'sym' and not NATIVE_DEPTH[0]:
             with NoTracing():
                 tags = bytes(buf[mark:])
-                if any(b >= len(CAPTURE) for b in tags) or mark != self.mark:
+                if any(b >= len(CAPTURE) for b in tags):
                     bad = True
                 else:
                     bad = False
